@@ -123,6 +123,67 @@ theorem ports_by_attr (v0 : View) (f : List Port) (h : List Notif) (key : Key) :
     intro p
     rw [List.mem_filter, hvs p]
 
+/-- **views_consistent** — in *any* state of a collection and its chain (reachable or not) the mapping interface is consistent
+with itself: `len` is the number of keys, keys are listed once, a number is a key exactly when it is a member / `has_key` /
+found by `[]`; `get` is `[]` with `IndexError` replaced by the default; `values()` and `items()` never raise, follow
+`keys()` position by position and hold exactly the ports found under the keys; the lookups by name and address search exactly
+`values()`. -/
+theorem views_consistent (ch : List PC) :
+    lenC ch = (keysC ch).length ∧ (keysC ch).Nodup ∧
+    (∀ k, k ∈ keysC ch ↔ containsC ch (.no k) = true) ∧
+    (∀ key, hasKeyC ch key = containsC ch key ∧ containsC ch key = (getItemC ch key).isSome) ∧
+    (∀ key d, getC ch key d = (getItemC ch key).or d) ∧
+    (∃ vs, valuesC ch = some vs ∧ vs.length = lenC ch ∧ vs.map (fun p => p.no) = keysC ch ∧
+        itemsC ch = some ((keysC ch).zip vs) ∧
+        (∀ p, p ∈ vs ↔ getItemC ch (.no p.no) = some p) ∧
+        (∀ a, getItemC ch (.hw a) = vs.find? (Key.hw a).hits) ∧
+        (∀ n, getItemC ch (.name n) = vs.find? (Key.name n).hits)) := by
+  refine ⟨rfl, nodup_keysC ch, ?_, fun key => ⟨rfl, rfl⟩, ?_, ?_⟩
+  · intro k; rw [mem_keysC_iff]; rfl
+  · intro key d; unfold getC; cases getItemC ch key <;> rfl
+  · obtain ⟨vs, h1, h2, h3⟩ := valuesC_spec ch
+    refine ⟨vs, h1, by rw [lenC, ← h2, List.length_map], h2, by simp [itemsC, h1], h3, ?_, ?_⟩
+    · intro a; simp [getItemC, h1]
+    · intro n; simp [getItemC, h1]
+
+/-- **copy_same_view** — `copy()` (with its `return`) never raises and yields a collection without masks and chain that
+answers every lookup by number, and lists the same keys, as the collection it was taken from. -/
+theorem copy_same_view (ch : List PC) :
+    ∃ c, copyC ch = some c ∧ c.masks = [] ∧ (∀ k, getItemC [c] (.no k) = getItemC ch (.no k)) ∧
+      (∀ k, k ∈ keysC [c] ↔ k ∈ keysC ch) := copyC_spec ch
+
+/-- **status_unknown_reason** — `handle_PORT_STATUS` tests only for `OFPPR_DELETE`: every other reason value, defined (ADD 0,
+MODIFY 2) or not (3..255), stores the carried description like a MODIFY. -/
+theorem status_unknown_reason (v : View) (r : Nat) (p : Port) (hr : r ≠ 1) :
+    portStatus v r p = portStatus v 2 p ∧ portStatus v r p = portStatus v 0 p := by
+  simp [portStatus, OFPPR_DELETE, hr]
+
+/-- **features_restarts** — a features reply received again (after any messages `ms`) restarts the picture: what follows is
+the fold over the new reply only, and `original_ports` is the new reply. -/
+theorem features_restarts (v0 : View) (ms : List PMsg) (f : List Port) (h : List Notif) :
+    let v := run v0 (ms ++ PMsg.features f :: h.map (fun n => PMsg.status n.reason n.port))
+    (∀ k, getItemC v.chain (.no k) = Spec17.fold f h k) ∧ v.orig.ports = f ∧
+    (∀ k, k ∈ keysC v.chain ↔ (Spec17.fold f h k).isSome) := by
+  intro v
+  have hv : v = runNotifs (featuresReply (run v0 ms) f) h := by
+    show run v0 _ = _
+    simp only [run, List.foldl_append, List.foldl_cons, step, List.foldl_map, runNotifs]
+  rw [hv]
+  obtain ⟨h1, h2, _, _, _, _, h7, _⟩ := ports_refine (run v0 ms) f h
+  exact ⟨h1, h7, h2⟩
+
+/-- **handshake_defers_in_order** — port statuses that arrive between the features reply and the end of the handshake are
+not lost and not reordered: when the connection comes up its view is the features reply with those statuses applied in
+order of arrival; statuses that arrive before any features reply are dropped (the features reply that follows is newer). -/
+theorem handshake_defers_in_order (c : HConn) (f : List Port) (rs : List (Nat × Port)) :
+    hsFinish ((rs.map (fun x => HMsg.status x.1 x.2)).foldl hsStep (hsStep c (.features f))) =
+      rs.foldl (fun v x => portStatus v x.1 x.2) (featuresReply c.view f) ∧
+    (c.deferred = none → (rs.map (fun x => HMsg.status x.1 x.2)).foldl hsStep c = c) := by
+  refine ⟨?_, fun hc => hs_dropped_before_features c hc rs⟩
+  simp only [hsStep]
+  rw [hs_statuses]
+  simp [hsFinish]
+
 /-- **own_entries_unique** — in every reachable state the delta layer of `con.ports` holds at most one port per number, so
 the loop "first port of `_ports` with this number" (of_01.py:649-651) cannot depend on the iteration order of the set. -/
 theorem own_entries_unique (v0 : View) (f : List Port) (h : List Notif) :
@@ -223,6 +284,9 @@ example : keysC (runNotifs (featuresReply View.init [pA, pB]) demoHist).chain = 
     (runNotifs (featuresReply View.init [pA, pB]) demoHist).cur.masks = [1, 9] ∧
     keysC (runNotifs (featuresReply View.init [pA, pB]) demoHist).origChain = [1, 2] := by decide
 example : ([pA, pB].map (fun p => p.no)).Nodup := by decide
+example : hsFinish ([HMsg.status 1 pA, .features [pA, pB], .status 1 pB, .status 2 pA'].foldl hsStep HConn.init) =
+    runNotifs (featuresReply View.init [pA, pB]) [.delete pB, .modify pA'] := by decide
+example : copyC vRename.chain = some ⟨[pA', pB], []⟩ := by decide
 
 /-! ## statistics -/
 
@@ -277,6 +341,27 @@ theorem stats_no_merge (s : List Part) (hs : ∀ p ∈ s, WellTyped p) (xid t : 
     funext x; rfl
   rw [this, events_proj [] s (xid, t), hreq, List.filter_nil, eventsFrom_reply, ← List.zip_map_right]
   simp [openParts, Out.ofOption]
+
+/-- **stats_two_requests** — what "different requests" means in the code: the assembly is keyed by the pair (xid, type), so two
+replies are kept apart as soon as they differ in the xid *or* in the statistics type.  For any stream in which the parts of
+`(x1, t1)` and of `(x2, t2)` each form a reply, in any interleaving and among any other parts, both events are raised, each
+exactly once at its own final part, each with exactly its own entries. -/
+theorem stats_two_requests (s : List Part) (hs : ∀ p ∈ s, WellTyped p) (x1 t1 x2 t2 : Nat)
+    (i1 i2 : List (List Nat)) (l1 l2 : List Nat) (_hne : x1 ≠ x2 ∨ t1 ≠ t2)
+    (h1 : s.filter (fun p => p.req == (x1, t1)) = mkReply x1 t1 i1 l1)
+    (h2 : s.filter (fun p => p.req == (x2, t2)) = mkReply x2 t2 i2 l2) :
+    (s.zip (runStats [] s).2).filter (fun x => x.1.req == (x1, t1)) =
+      (mkReply x1 t1 i1 l1).zip (List.replicate i1.length .quiet ++
+          [.event ⟨t1, (i1 ++ [l1]).flatten, List.replicate (i1.length + 1) x1⟩]) ∧
+    (s.zip (runStats [] s).2).filter (fun x => x.1.req == (x2, t2)) =
+      (mkReply x2 t2 i2 l2).zip (List.replicate i2.length .quiet ++
+          [.event ⟨t2, (i2 ++ [l2]).flatten, List.replicate (i2.length + 1) x2⟩]) :=
+  ⟨stats_no_merge s hs x1 t1 i1 l1 h1, stats_no_merge s hs x2 t2 i2 l2 h2⟩
+
+/-- **raw_event_exactly_for_stats** — `RawStatsReply` is raised for every statistics message (complete or not) and for no
+other message. -/
+theorem raw_event_exactly_for_stats (m : Msg) : (∀ p, rawOf m = some p ↔ m = .stats p) := by
+  intro p; cases m <;> simp [rawOf]
 
 /-- **stats_never_raises** — the repaired assembly never raises, in any state, for any part (the unrepaired one raises
 `AttributeError` / `IndexError`, see the witnesses below). -/
@@ -368,6 +453,9 @@ example : (runStats [] [a1, b1, a2]).2 = [.quiet, .event ⟨4, [20], [8]⟩, .ev
     (runStats [] [⟨9, 0xffff, false, []⟩]).2 = [.quiet] := by decide
 
 /-! non-vacuity of the statistics theorems -/
+example : [a1, ⟨8, 1, true, [30]⟩, a2, ⟨8, 1, false, [31]⟩].filter (fun p => p.req == (8, 1)) = mkReply 8 1 [[30]] [31] ∧
+    (runStats [] [a1, ⟨8, 1, true, [30]⟩, a2, ⟨8, 1, false, [31]⟩]).2 =
+      [.quiet, .quiet, .event ⟨1, [10, 11, 12], [7, 7]⟩, .event ⟨1, [30, 31], [8, 8]⟩] := by decide
 example : ∀ p ∈ [a1, b1, a2], WellTyped p := by decide
 example : [a1, b1, a2].filter (fun p => p.req == (7, 1)) = mkReply 7 1 [[10]] [11, 12] := by decide
 example : openParts [a1, b1, a2] (7, 1) = [] ∧ openParts [a1, b1] (7, 1) = [a1] := by decide
